@@ -348,6 +348,9 @@ impl Property for Prop {
                 let total = a.pow(rest as u32);
                 let mut seq = vec![alpha[k as usize / a], alpha[k as usize % a]];
                 for idx in 0..total {
+                    if idx % 64 == 0 && crate::expired() {
+                        return;
+                    }
                     seq.truncate(2);
                     let mut x = idx;
                     for _ in 0..rest {
@@ -380,6 +383,9 @@ impl Property for Prop {
                 let mut s = Sys::new(slots, cap);
                 let mut ok = true;
                 for (i, op) in seq.iter().enumerate() {
+                    if i % 64 == 0 && crate::expired() {
+                        return;
+                    }
                     rep.eval();
                     let r = s.apply(op).and_then(|_| if i % 17 == 0 { s.audit() } else { Ok(()) });
                     if let Err((clause, d)) = r {
